@@ -125,11 +125,28 @@ def lower_in_model(s):
     return all(ord(c) < 256 or c.lower() == c for c in s)
 
 
+def spread(cases, shard=400):
+    """order the cases so that the few expensive ones (thousands of
+    characters) land in different shards of core.coq_eval"""
+    heavy = [c for c in cases if len(c[0]) + len(c[1]) > 4000]
+    light = [c for c in cases if len(c[0]) + len(c[1]) <= 4000]
+    count = max(1, -(-len(cases) // shard))
+    buckets = [[] for _ in range(count)]
+    for k, case in enumerate(heavy):
+        buckets[k % count].append(case)
+    pos = 0
+    for bucket in buckets:
+        take = max(0, shard - len(bucket))
+        bucket.extend(light[pos:pos + take])
+        pos += take
+    buckets[-1].extend(light[pos:])
+    return [case for bucket in buckets for case in bucket]
+
+
 def correspond(ctx, name, cases):
     start = time.time()
-    ctx.correspondence(name, IMPORTS,
-                       [(term, tov(exp), pay) for term, exp, pay in cases],
-                       list)
+    ctx.correspondence(name, IMPORTS, spread(
+        [(term, tov(exp), pay) for term, exp, pay in cases]), list)
     ctx.extra.setdefault("phase_seconds", {})["coq:" + name] = \
         round(time.time() - start, 1)
 
@@ -351,6 +368,8 @@ def run(ctx):
         cases.append(("run_parse_range %s" % slit(text), got,
                       ("parse_range", text[:200])))
         part = text.split("=")[-1]
+        if quick and len(part) > 1500:
+            continue
         cases.append(("run_findall %s" % slit(part),
                       [list(m) for m in H.RE_BYTES_RANGE.findall(part)],
                       ("findall", part[:200])))
